@@ -558,8 +558,11 @@ func genVerifyCommit(r *vh.Run, im *impl, do func(string) string, h, rd int64, n
 		"nilbid":   fmt.Sprintf("%d,%s,%d,%d,2,%s,%d.0", i, addr(i), h, rd, "-,0,-", i),
 		// the vote names another part set of the same header hash and carries the signature of the genuine vote
 		"relabel": fmt.Sprintf("%d,%s,%d,%d,2,%s,%d.1000", i, addr(i), h, rd, "aa,2,cc", i),
+		// two fields at once: a precommit that does not count for the block AND does not verify
+		"nilbid-badsig":   fmt.Sprintf("%d,%s,%d,%d,2,%s,%d.7", i, addr(i), h, rd, "-,0,-", i),
+		"otherbid-badsig": fmt.Sprintf("%d,%s,%d,%d,2,%s,%d.9", i, addr(i), h, rd, "cc,2,dd", i),
 	}
-	names := []string{"height", "round", "type", "sig", "otherkey", "otherbid", "nilbid", "relabel", "relabel"}
+	names := []string{"height", "round", "type", "sig", "otherkey", "otherbid", "nilbid", "relabel", "relabel", "nilbid-badsig", "otherbid-badsig"}
 	nm := names[R.Intn(len(names))]
 	first := 0
 	for first < n && slots[first] == "-" {
@@ -573,6 +576,9 @@ func genVerifyCommit(r *vh.Run, im *impl, do func(string) string, h, rd int64, n
 	op := fmt.Sprintf("verifyc %s %d %s", b, h, strings.Join(s2, " "))
 	res2 := do(op)
 	r.Count("verifyc.mut." + nm + "." + res2)
+	if strings.HasSuffix(nm, "-badsig") && res2 == "ok" {
+		r.Fail(vh.Failure{Class: "verifycommit-accepts-unverifiable-precommit", Detail: "VerifyCommit accepts a commit that carries a precommit (for nil / for another block) whose signature does not verify under the key of its slot: the stored commit is not verifiable slot by slot", Ops: []string{newOp, op}, Got: res2, Want: "an error"})
+	}
 	_, v := im.vals.GetByIndex(i)
 	rest := signed - v.VotingPower
 	if res2 == "ok" && rest*3 <= total*2 {
